@@ -411,7 +411,7 @@ func wantEsc(s script) int {
 
 // run: as runOnce, but a case whose number of Escape reports is *higher* than scripted is re-run
 // (the scheduler held the parser goroutine for 10 ms between two reads that the script issues back to
-// back; prompt arrival cannot be guaranteed from user space, only retried).  Fewer is never retried.
+// back; prompt arrival cannot be guaranteed from user space, only retried).  Fewer is retried three times.
 func run(s script, consumer string) string {
 	if s.has('w') {
 		return runChild(s, consumer)
@@ -422,7 +422,10 @@ func run(s script, consumer string) string {
 		if panicked {
 			return "! | -"
 		}
-		if s.has('c') || strings.Count(" "+res+" ", " C:1b ") <= wantEsc(s) {
+		// (round 4: fewer reports than scripted are re-run too — under a load of 40 the callback goroutine of a
+		// lone ESC can be held up for more than the 30 ms that separate the timer from the next read; a parser
+		// that really loses the report loses it on every try)
+		if n := strings.Count(" "+res+" ", " C:1b "); s.has('c') || n == wantEsc(s) || (n < wantEsc(s) && try >= 3) {
 			return res
 		}
 		mu.Lock()
